@@ -254,7 +254,7 @@ theorem continuity_first_knot (b : Basis K) (tol : K) (htol : 0 < tol) (hmono : 
       ∃ c : Int, b.continuity tol (b.kn 0) = .ok (some c) ∧ c < (b.order : Int) := by
   unfold Basis.continuity
   simp only [hper, if_false]
-  by_cases hout : b.kn 0 < b.start ∨ b.stop < b.kn 0
+  by_cases hout : b.kn 0 < b.start - tol ∨ b.stop + tol < b.kn 0
   · left; simp [hout]
   · right
     simp only [hout, if_false]
